@@ -50,9 +50,10 @@ type Op struct {
 
 // Hist is a whole history.
 type Hist struct {
-	Cap   int64 `json:"cap"`
-	NKeys int   `json:"nkeys"`
-	Ops   []Op  `json:"ops"`
+	Cap   int64  `json:"cap"`
+	NKeys int    `json:"nkeys"`
+	Ops   []Op   `json:"ops"`
+	Skip  *SHist `json:"skip,omitempty"` // layer 2: a SkipList history instead of a Queue history
 }
 
 // Snap is the observer snapshot after an operation. -1 = nil, -2 = panic.
@@ -304,6 +305,10 @@ func main() {
 		if err := hlib.ReplayInput(opts.Replay, &h); err != nil {
 			panic(err)
 		}
+		if h.Skip != nil {
+			emitSkip(o, "replay", *h.Skip)
+			return
+		}
 		emit(o, "replay", h)
 		return
 	}
@@ -381,4 +386,6 @@ func main() {
 		h := g.hist(cap, nk, g.r.Range(120, 250), sc, ranks, sizes, 58, 36, 20)
 		emit(o, "large", h)
 	}
+	// layer 2: the SkipList itself
+	skipStreams(o, opts.Seed, mult)
 }
